@@ -39,6 +39,30 @@ def _run_one_stream(prop, s, binaries, seed, n, tag, ops_file=None, race=False):
     return res
 
 
+def _replay_ops(prop, s, replay):
+    """A replay is either a plain ops file (used as is for every stream) or a replays/*.json written
+    by a failed run: then the op histories of its failing entries for this stream's component are
+    written to an ops file (None if there are none)."""
+    if not replay.endswith(".json"):
+        return replay
+    try:
+        data = json.load(open(replay))
+    except Exception:  # noqa
+        return replay
+    ops = []
+    for f in data.get("failing", []):
+        if f.get("component") != s["component"]:
+            continue
+        ops += f.get("ops") or [f.get("op", "")]
+    if not ops:
+        return None
+    path = os.path.join(C.BUILD, "runs", prop, "replay-%s.ops" % s["component"])
+    os.makedirs(os.path.dirname(path), exist_ok=True)
+    with open(path, "w") as fh:
+        fh.write("\n".join(o for o in ops if o) + "\n")
+    return path
+
+
 def check(prop, cfg, tier, seed, replay=None):
     t0 = time.time()
     tie_broken = []      # what no longer checks (proof obligation / correspondence)
@@ -104,7 +128,10 @@ def check(prop, cfg, tier, seed, replay=None):
             continue  # additional seed chunk of a stream: not part of this tier / not needed for a replay
         runs = []
         if replay:
-            runs.append(("replay", replay, 0))
+            rp = _replay_ops(prop, s, replay)
+            if rp is None:
+                continue  # the replay file holds nothing for this stream
+            runs.append(("replay", rp, 0))
         else:
             corp = os.path.join(C.VERIF, "corpus", prop, s["component"] + ".ops")
             if os.path.exists(corp):
